@@ -222,6 +222,7 @@ class Crazyflie():
         if (self.link is not None):
             self.link.close()
         self.link = None
+        self._cancel_answer_timers()
         if (self.state == State.INITIALIZED):
             self.connection_failed.call(self.link_uri, errmsg)
         elif (self.state == State.CONNECTED or
@@ -291,7 +292,7 @@ class Crazyflie():
         if (self.link is not None):
             self.link.close()
             self.link = None
-        self._answer_patterns = {}
+        self._cancel_answer_timers()
         self.disconnected.call(self.link_uri)
         self.state = State.DISCONNECTED
 
@@ -315,6 +316,14 @@ class Crazyflie():
     def remove_header_callback(self, cb, port, channel, port_mask=0xFF, channel_mask=0xFF):
         """Remove the callback cb on port and channel"""
         self.incoming.remove_header_callback(cb, port, channel, port_mask, channel_mask)
+
+    def _cancel_answer_timers(self):
+        """Stop waiting for answers, the link is closed. Requests of this session must
+        not be sent again on the next link"""
+        answer_patterns = self._answer_patterns
+        self._answer_patterns = {}
+        for timer in answer_patterns.values():
+            timer.cancel()
 
     def _no_answer_do_retry(self, pk, pattern, timeout=0.2):
         """Resend packets that we have not gotten answers to"""
